@@ -28,25 +28,31 @@ func TestMain(m *testing.M) { vkit.Main(m, "C04") }
 
 // "X>L": the connection is (not) authenticated as X and additionally sent a bare phase-1 handshake
 // naming the listen client L which it never answered (an unproven identity claim)
-var identities = []string{"none", "L", "T", "S", "S>L", "none>L"}
+// "failed": the connection sent a handshake that FAILED (wrong response): a control-connection object exists
+// for it, but it is not authenticated and carries client id 0
+var identities = []string{"none", "L", "T", "S", "S>L", "none>L", "failed"}
 
 // "other-mapping": the requester's own valid mapping (it is that mapping's listen client) and secret,
 // together with the victim tunnel's id
 var creds = []string{"mapping-id", "right-secret", "wrong-secret", "resume-garbage", "nothing", "other-mapping"}
 var backends = []string{"memory", "redis"}
 var mstates = []string{"active", "revoked", "expired", "inactive", "missing"}
-var tstates = []string{"none", "waiting", "served", "remote"}
+
+// "local-route": a routing record that names THIS node as the source while no bridge exists (a record that
+// outlived its bridge, or a bridge that is about to be created)
+var tstates = []string{"none", "waiting", "served", "remote", "local-route"}
 
 type Cell struct {
-	Identity    string `json:"identity"`
-	Cred        string `json:"credential"`
-	MState      string `json:"mapping_state"`
-	TState      string `json:"tunnel_state"`
-	EmptySecret bool   `json:"mapping_has_empty_secret"` // mappings created through connection codes have no secret
-	ConnType    string `json:"handshake_connection_type"`
-	Backend     string `json:"storage_backend"` // memory (hybrid over memory) | redis (hybrid over Redis/miniredis: records are JSON-serialised)
-	TunnelID    string `json:"tunnel_id"`
-	Compress    bool   `json:"-"`
+	Identity       string `json:"identity"`
+	Cred           string `json:"credential"`
+	MState         string `json:"mapping_state"`
+	TState         string `json:"tunnel_state"`
+	EmptySecret    bool   `json:"mapping_has_empty_secret"` // mappings created through connection codes have no secret
+	ConnType       string `json:"handshake_connection_type"`
+	ServerListened bool   `json:"mapping_listened_by_server"` // ListenClientID == 0 (server-side ingress mapping)
+	Backend        string `json:"storage_backend"`            // memory (hybrid over memory) | redis (hybrid over Redis/miniredis: records are JSON-serialised)
+	TunnelID       string `json:"tunnel_id"`
+	Compress       bool   `json:"-"`
 }
 
 // otherNode is the harness-owned "source node" for the cross-node state: it records
@@ -188,7 +194,11 @@ func runCell(c Cell) (outcome, error) {
 		who[n] = cred{cl.ID, cl.SecretKeyPlaintext}
 	}
 	secret := "mapping-secret-0123456789abcdef"
-	m := &models.PortMapping{ListenClientID: who["L"].id, TargetClientID: who["T"].id, Protocol: models.ProtocolTCP,
+	listenID := who["L"].id
+	if c.ServerListened {
+		listenID = 0
+	}
+	m := &models.PortMapping{ListenClientID: listenID, TargetClientID: who["T"].id, Protocol: models.ProtocolTCP,
 		SourcePort: 17788, TargetHost: "127.0.0.1", TargetPort: 3306, SecretKey: secret, Status: models.MappingStatusActive}
 	mp, err := srv.Cloud.CreatePortMapping(m)
 	if err != nil {
@@ -237,6 +247,12 @@ func runCell(c Cell) (outcome, error) {
 			if ack == nil || !ack.Success {
 				out.setupNote = "legitimate target could not attach"
 			}
+		}
+	case "local-route":
+		st := &session.TunnelWaitingState{TunnelID: tid, MappingID: mp.ID, SecretKey: right, SourceNodeID: srv.NodeID,
+			SourceClientID: who["L"].id, TargetClientID: who["T"].id, TargetHost: "127.0.0.1", TargetPort: 3306}
+		if err := srv.Routing.RegisterWaitingTunnel(context.Background(), st); err != nil {
+			return out, err
 		}
 	case "remote":
 		other, err = newOtherNode()
@@ -311,12 +327,17 @@ func runCell(c Cell) (outcome, error) {
 	if i := strings.Index(c.Identity, ">"); i >= 0 {
 		base, claim = c.Identity[:i], c.Identity[i+1:]
 	}
-	if base != "none" {
+	if base == "failed" {
+		r, _ := rq.Login(who["S"].id, "not-the-secret-of-S", c.ConnType)
+		if r != nil && r.Success {
+			return out, fmt.Errorf("setup: login with a wrong secret succeeded")
+		}
+	} else if base != "none" {
 		r, err := rq.Login(who[base].id, who[base].secret, c.ConnType)
 		if err != nil || r == nil || !r.Success {
 			return out, fmt.Errorf("setup: requester login failed: %+v %v", r, err)
 		}
-		authed = true
+		authed = base != "failed"
 	}
 	if claim != "" {
 		// an identity claim that is never proven: phase-1 for the victim, no answer to the challenge
@@ -325,7 +346,7 @@ func runCell(c Cell) (outcome, error) {
 	var own *models.PortMapping
 	if c.Cred == "other-mapping" {
 		lid := who["S"].id
-		if base != "none" {
+		if base != "none" && base != "failed" {
 			lid = who[base].id
 		}
 		own, err = srv.Cloud.CreatePortMapping(&models.PortMapping{ListenClientID: lid, TargetClientID: who["S"].id, Protocol: models.ProtocolTCP,
@@ -424,6 +445,8 @@ func runCell(c Cell) (outcome, error) {
 		default:
 			out.entitled = false
 		}
+	case c.ServerListened && base == "L":
+		out.entitled = false // the mapping has no listening client; L is unrelated to it
 	case c.Identity == "L" && (c.Cred == "mapping-id" || c.Cred == "right-secret"):
 		out.entitled = true
 	case c.Identity == "L" && (c.Cred == "wrong-secret" || c.Cred == "resume-garbage"):
@@ -446,6 +469,8 @@ func branch(t string) string {
 		return "existing-bridge"
 	case "remote":
 		return "cross-node"
+	case "local-route":
+		return "local-route-without-bridge"
 	}
 	return "new-bridge"
 }
@@ -489,6 +514,13 @@ func check(t vkit.TB, c Cell) {
 			why += "(empty-secret-mapping)"
 		}
 	}
+	if bad == "" && !out.acked {
+		// "a refused request receives a failure acknowledgement"
+		key := fmt.Sprintf("C04/refused-without-failure-ack/%s/identity=%s/%s", branch(c.TState), c.Identity, why)
+		vkit.Violation(t, key, fmt.Sprintf("not entitled, nothing attached, but no TunnelOpenAck arrived within 1.5 s (dispatcher error: %q)", out.pushErr), c)
+		vkit.Case("known:"+class, true, sig)
+		return
+	}
 	if bad != "" {
 		key := fmt.Sprintf("C04/attach-%s/identity=%s/%s", branch(c.TState), c.Identity, why)
 		vkit.Violation(t, key, fmt.Sprintf("not entitled but %s (ack success=%v attached=%v leaked=%q remote=%v)", bad, out.success, out.attached, out.leaked, out.remote), c)
@@ -518,6 +550,12 @@ func TestMatrix(t *testing.T) {
 								continue
 							}
 							check(t, Cell{Identity: id, Cred: cr, MState: ms, TState: ts, EmptySecret: es, ConnType: "tunnel", Backend: be})
+							if ts == "none" && be == "memory" {
+								i++
+								if vkit.Mine(i) {
+									check(t, Cell{Identity: id, Cred: cr, MState: ms, TState: ts, EmptySecret: es, ConnType: "tunnel", Backend: be, ServerListened: true})
+								}
+							}
 						}
 					}
 				}
@@ -531,14 +569,18 @@ func TestMatrix(t *testing.T) {
 func TestRandomCells(t *testing.T) {
 	vkit.Check(t, 160, 8000, func(t *rapid.T) {
 		c := Cell{
-			Identity:    rapid.SampledFrom(identities).Draw(t, "identity"),
-			Cred:        rapid.SampledFrom(creds).Draw(t, "cred"),
-			MState:      rapid.SampledFrom(mstates).Draw(t, "mstate"),
-			TState:      rapid.SampledFrom([]string{"waiting", "waiting", "served", "remote", "none"}).Draw(t, "tstate"),
-			EmptySecret: rapid.Bool().Draw(t, "emptySecret"),
-			ConnType:    rapid.SampledFrom([]string{"tunnel", "control", ""}).Draw(t, "connType"),
-			Backend:     rapid.SampledFrom(backends).Draw(t, "backend"),
-			TunnelID:    rapid.StringMatching(`(tcp|udp|socks5)-tunnel-[0-9]{6,19}-[0-9]{2,5}`).Draw(t, "tid"),
+			Identity:       rapid.SampledFrom(identities).Draw(t, "identity"),
+			Cred:           rapid.SampledFrom(creds).Draw(t, "cred"),
+			MState:         rapid.SampledFrom(mstates).Draw(t, "mstate"),
+			TState:         rapid.SampledFrom([]string{"waiting", "waiting", "served", "remote", "none", "local-route"}).Draw(t, "tstate"),
+			EmptySecret:    rapid.Bool().Draw(t, "emptySecret"),
+			ConnType:       rapid.SampledFrom([]string{"tunnel", "control", ""}).Draw(t, "connType"),
+			Backend:        rapid.SampledFrom(backends).Draw(t, "backend"),
+			ServerListened: rapid.IntRange(0, 4).Draw(t, "serverListened") == 0,
+			TunnelID:       rapid.StringMatching(`(tcp|udp|socks5)-tunnel-[0-9]{6,19}-[0-9]{2,5}`).Draw(t, "tid"),
+		}
+		if c.ServerListened {
+			c.TState = "none" // nobody can legitimately open the source side of a server-listened mapping as a client
 		}
 		check(t, c)
 	})
